@@ -137,6 +137,11 @@ func Gen(r *vc.Rand) Template {
 			t.Segs = append(t.Segs, v)
 		}
 	}
+	// a last literal that itself ends in ":verb" ("/x/b:v:v" = literal "b:v" + verb "v"): a path that carries one verb too few
+	// ("/x/b:v") ends in the literal's own tail and must not be taken for a match
+	if last := &t.Segs[len(t.Segs)-1]; hasVerb && last.Typ == 2 && r.Chance(15) {
+		last.Lit += ":" + t.Verb
+	}
 	// a verb containing a colon is only unambiguous after a variable
 	if last := t.Segs[len(t.Segs)-1]; hasVerb && last.Typ == 3 && r.Chance(20) {
 		t.Verb = "a:b"
